@@ -31,6 +31,8 @@ type Obl struct {
 	Canary bool     `json:"canary,omitempty"` // must NOT be provable
 	ctx    *Ctx
 	failedPart *Obl
+	MaxPartMS  int    `json:"-"`
+	SlowPart   string `json:"-"`
 }
 
 type Ctx struct {
